@@ -2,6 +2,7 @@
 package main
 
 import (
+	"fmt"
 	"os"
 	"strings"
 
@@ -94,6 +95,19 @@ func main() {
 					}
 				}
 			}
+		}
+	}
+	// the overflow region: 7- and 8-digit hour values around and beyond MaxInt64/Hour (digits*unit no longer fits: the
+	// result must saturate, whatever the product does modulo 2^64), and the largest values of every unit
+	for i := 0; i < vc.Scale(400, 20000); i++ {
+		emit(fmt.Sprintf("%dH", 2562040+r.Intn(99999999-2562040+1)))
+	}
+	for d := -8; d <= 8; d++ {
+		emit(fmt.Sprintf("%dH", 2562047+d))
+	}
+	for _, u := range "HMSmun" {
+		for _, v := range []int{99999999, 99999998, 10000000, 9999999} {
+			emit(fmt.Sprintf("%d%c", v, u))
 		}
 	}
 	// random strings over a small alphabet and over all bytes
